@@ -1,9 +1,11 @@
+pub mod c13;
 pub mod c20;
 
 use crate::engine::PropertySpec;
 
 pub fn spec(id: &str) -> Option<PropertySpec> {
     Some(match id {
+        "C13" => c13::spec(),
         "C20" => c20::spec(),
         _ => return None,
     })
